@@ -1,5 +1,7 @@
 import BindgenModel.Lemmas.Layout
 import BindgenModel.Lemmas.StructLayout
+import BindgenModel.Lemmas.StructLayout2
+import BindgenModel.Lemmas.StructLayout3
 import BindgenModel.Generated.LayoutConsts
 /-!
 # C02 — generated types match the C compiler's size, alignment and offsets
@@ -15,8 +17,17 @@ It is delivered in layers (DESIGN.md §5 C02); this file says which layers are p
 * layer 1 — `alignTo` lemmas, `blob_exact`                                   (proved, unbounded)
 * layer 2 — `C02_plain_struct` (+ `C02_explicit_padding_irrelevant`)          (proved, unbounded
   in the number and sizes of members; region `padInexact` excluded, negation witnessed)
-* layers 3–7 — packed, explicit align > 8 members, bit-field units, unions, opaque: see the
-  `level_note` of the manifest; the statements that are proved are listed in `props_index.json`.
+* layer 3 — `C02_packed_struct` (`repr(C, packed)` and `#pragma pack(N)` → `packed(N)`)   (proved, unbounded)
+* layer 6 — `C02_unions` (Rust `union` form and `__BindgenUnionField` + blob form)          (proved, unbounded;
+  region `explicit_padding_union_wrapper` excluded, negation witnessed)
+* layer 7 — `C02_opaque` (one exact blob, `repr(align)` / `_bindgen_align`)                 (proved)
+* layer 4 — `C02_plain_struct_any_align` (member alignments 1, 2, 4 or any multiple of 8; emits
+  `repr(align(N))`)                                                                         (proved, unbounded)
+* layer 5 — `C02_with_units` (bit-field allocation units mixed with plain members, `pad_struct`
+  after a trailing unit, `_bindgen_align`)  (proved, unbounded; regions `bitfield_unit_misplaced`,
+  `explicit_padding_double_tail`, `pad_blob_inexact` excluded, negations witnessed)
+* not covered by an unbounded theorem: arrays of over-aligned elements (the `saw_field` hack),
+  C++ bases / vtables, records mixing the packed / aligned regions listed below.
 -/
 namespace BindgenModel.C02
 open BindgenModel.Layout BindgenModel.StructLayout BindgenModel.CompCodegen
@@ -83,6 +94,78 @@ theorem C02_fails_on_pad_inexact_int128 :
     ((emit {} witnessInt128).bind reprC).map (fun l => (l.size, l.align, l.userOffsets)) = some (48, 16, [(0, 0), (1, 32)]) := by
   decide
 
+/-! ## layers 3, 6, 7 (proofs in `Lemmas/StructLayout2.lean`) -/
+
+/-- **packed structs**: `__attribute__((packed))` (alignment 1) and `#pragma pack(N)` recognised
+through a member that is more aligned than the record: the emitted `repr(C, packed(N))` struct
+has the C size, alignment and member offsets (with or without `--explicit-padding`). -/
+theorem C02_packed_struct (o : Opts) (c : CAgg) (h : ClangPacked c = true) :
+    ∃ r l, emit o c = some r ∧ reprC r = some l ∧
+      (∀ cl, c.layout = some cl → l.size = cl.size ∧ l.align = cl.align ∧ r.packed = some cl.align) ∧
+      l.userOffsets = cOffsets 0 c.fields := packed_struct o c h
+
+/-- **unions**, as a Rust `union` or as a struct of zero-sized `__BindgenUnionField`s plus a blob:
+C size and alignment, every member at offset 0.  `--explicit-padding` on the wrapper form is the
+excluded region (`C02_fails_on_explicit_padding_union_wrapper`). -/
+theorem C02_unions (o : Opts) (c : CAgg) (h : ClangUnion c = true)
+    (hf : o.forcePadding = false ∨ (c.isRustUnion o).1 = true) :
+    ∃ r l, emit o c = some r ∧ reprC r = some l ∧
+      (∀ cl, c.layout = some cl → l.size = cl.size ∧ l.align = cl.align) ∧
+      l.userOffsets.all (fun p => p.2 == 0) = true ∧
+      l.userOffsets.map (·.1) = List.range c.fields.length ∧
+      r.isUnion = (c.isRustUnion o).1 := union_layout o c h hf
+
+/-- **opaque records** are exactly one blob of the C size and alignment (serves C10 `opaque_exact`);
+no member of the record is emitted.  (`u64Align ≤ 8`: the `_bindgen_align: [u64; 0]` helper.) -/
+theorem C02_opaque (o : Opts) (c : CAgg) (h : ClangOpaque c = true) (hu : o.u64Align ≤ 8) :
+    ∃ r l, emit o c = some r ∧ reprC r = some l ∧
+      (∀ cl, c.layout = some cl → l.size = cl.size ∧ l.align = cl.align) ∧
+      l.userOffsets = [] ∧ r.isUnion = (c.isRustUnion o).1 ∧
+      (r.fields.filter (fun f => f.name == .opaqueBlob)).length = 1 := opaque_exact_gen o c h hu
+
+/-- an opaque *union* is emitted as `union { _bindgen_opaque_blob }` (the struct/union keyword is
+not forced to `struct` on the opaque path): layout still exact -/
+theorem C02_opaque_union_keyword :
+    (emit {} { isUnion := true, layout := some { size := 4, align := 4 }, fields := [], isOpaque := true }).map (·.isUnion) = some true := by
+  decide
+
+/-- the domains of layers 3, 6, 7 are inhabited by non-trivial records -/
+example : ClangPacked witnessPackedOk = true ∧ ClangUnion witnessUnionOk = true ∧ ClangOpaque witnessOpaqueOk = true := by decide
+
+/-! ## layers 4, 5 (proofs in `Lemmas/StructLayout3.lean`) -/
+
+/-- **plain structs, members of any alignment** (1, 2, 4 or a positive multiple of 8): as
+`C02_plain_struct`; over-aligned members make the code emit `repr(align(N))`. -/
+theorem C02_plain_struct_any_align (o : Opts) (c : CAgg) (h : ClangPlainA c = true) (hp : padInexact o c = false) :
+    ∃ r l, emit o c = some r ∧ reprC r = some l ∧
+      (∀ cl, c.layout = some cl → l.size = cl.size ∧ l.align = cl.align) ∧
+      l.userOffsets = cOffsets 0 c.fields := plain_struct_any_align o c h hp
+
+/-- **structs with bit-field allocation units**: units are byte arrays of alignment 1 that start
+where the previous field ended (`ClangUnits`; otherwise region `bitfield_unit_misplaced`); plain
+members keep their C offsets, every unit sits at the byte libclang's bit offsets say, size and
+alignment are C's (`pad_struct` after a trailing unit, `_bindgen_align` / `repr(align)`).
+Without `--explicit-padding` (region `explicit_padding_double_tail`); `padInexactU` is
+`padInexact` with units advancing the running offset; unit numbers pairwise distinct. -/
+theorem C02_with_units (o : Opts) (c : CAgg) (h : ClangUnits c = true)
+    (hf : o.forcePadding = false) (hu : o.u64Align = 8)
+    (hpu : padInexactU o c = false) (hnd : ((cUnitOffsets c.fields).map Prod.fst).Nodup) :
+    ∃ r l, emit o c = some r ∧ reprC r = some l ∧
+      (∀ cl, c.layout = some cl → l.size = cl.size ∧ l.align = cl.align) ∧
+      l.userOffsets = cOffsets 0 c.fields ∧
+      (∀ n off, (n, off) ∈ cUnitOffsets c.fields → l.unitOffset n = some off) :=
+  with_units o c h hf hu hpu hnd
+
+/-- the two extra hypotheses of `C02_with_units` are needed (witnesses by `decide`) -/
+theorem C02_with_units_needs_padInexactU :
+    ClangUnits withUnitsCexPad = true ∧ padInexact {} withUnitsCexPad = false ∧ padInexactU {} withUnitsCexPad = true ∧
+    ((emit {} withUnitsCexPad).bind reprC).map (fun l => (l.size, l.userOffsets)) = some (48, [(1, 32)]) ∧
+    cOffsets 0 withUnitsCexPad.fields = [(1, 16)] := with_units_cex_pad
+
+/-- layers 4 and 5 are inhabited: `struct { long a; __int128 b; }`, `struct { int a:3; long b; char c:2; }` -/
+example : ClangPlainA witnessAlign16 = true ∧ padInexact {} witnessAlign16 = false ∧
+    ClangUnits witnessDoubleTail = true ∧ padInexactU {} witnessDoubleTail = false := by decide
+
 /-! ## further excluded regions (packed / aligned mixes, bit-field units, `--explicit-padding`)
 
 Each region is a decidable predicate of `Model/LayoutRegions.lean` (the driver evaluates it, the
@@ -139,6 +222,18 @@ theorem C02_fails_on_tail_padding_underflow :
 theorem C02_fails_on_unpacked_misaligned_member :
     (emit {} witnessMisaligned).map (unpackedMisalignedMember witnessMisaligned) = some true ∧
     summary {} witnessMisaligned = some (some (16, 8, [(0, 0), (1, 8)])) := by decide
+
+/-- `#pragma pack(4)` with a member-level `aligned(16)`: C leaves a gap (b at 4, c at 8, size 16),
+the emitted `repr(C, packed(4))` struct has none (b at 1, c at 4, size 12) -/
+theorem C02_fails_on_packed_member_gap :
+    (emit {} witnessPackedGap).map (packedGap witnessPackedGap) = some true ∧
+    summary {} witnessPackedGap = some (some (12, 4, [(0, 0), (1, 1), (2, 4)])) := by decide
+
+/-- a bit-field unit lands at byte 1, libclang has its bit-field at bit 32 (byte 4): size, alignment
+and the offsets of plain members agree with C, the bit-field accessors touch the wrong bytes -/
+theorem C02_fails_on_bitfield_unit_misplaced :
+    (emit {} witnessUnitMisplaced).map (unitMisplaced witnessUnitMisplaced) = some true ∧
+    ((emit {} witnessUnitMisplaced).bind reprC).map (fun l => (l.size, l.align, l.unitOffset 1)) = some (8, 4, some 1) := by decide
 
 /-- the hypotheses of `C02_plain_struct` are satisfiable on a non-trivial record
 (`struct { char a; int b; short c; long d; }` with and without explicit padding) -/
